@@ -376,6 +376,17 @@ def run(ctx: Ctx, tier: str) -> Result:
     else:
         res.fail(Finding("C19.FRAME", ia.qname, "<exclude, include, app root, none>", ia.loc(),
                          "is_app_frame does not test exclude prefixes first, then include prefixes, then the app root, else (False, None): %s" % [(s_, v) for s_, v, _ in seq]))
+    # the prefix answered is a prefix of the file name *as given*: the short path is cut from that text by the length of the
+    # prefix, so the name is compared unchanged (a normalised / resolved / lower-cased copy matches prefixes the text does not have)
+    fnp_ia = ia.params[1] if len(ia.params) > 1 else None
+    rb_ = [b for k_, b in t.local_bindings(ia, fnp_ia) if k_ != "param"] if fnp_ia else []
+    if rb_:
+        n_ = rb_[0][1] if isinstance(rb_[0], tuple) else rb_[0]
+        res.fail(Finding("C19.FRAME", ia.qname, paths.stmt_of(p, n_) if isinstance(n_, ast.AST) else fnp_ia, ia.loc(n_) if isinstance(n_, ast.AST) else ia.loc(), "is_app_frame replaces the file name it was "
+                         "given (`%s`) before matching: the prefix it answers need not be a prefix of the real name, and the short path - the real name cut by that length - is wrong" % (
+                             norm(paths.stmt_of(p, n_))[:60] if isinstance(n_, ast.AST) else fnp_ia)))
+    else:
+        res.ok("C19.FRAME", {"file name matched as given": fnp_ia})
     ps = p.func("deep.processor.frame_collector.FrameCollector.parse_short_name")
     pt = Table(ctx, ps)
     fnp = P(ps, 1)
